@@ -177,3 +177,7 @@ fn c12_assigned_numbers() {
     assert!(icmpv6::IcmpType::from(x).id() == x);
     assert!(ClassNum::from(x).id() == x);
 }
+
+/// Harness-side mutable statics to reset between native witness-search trials (none here).
+#[allow(dead_code)]
+fn verif_reset_statics() {}
